@@ -33,7 +33,7 @@ fn c01_spec() -> CheckSpec {
         ],
         real_components: vec!["a2lfile: tokenizer, loader (decoding, BOM), parser, generated parsers/writers, writer, ifdata, a2ml, ItemList", "std Read::read_to_end retry/growth loop"],
         stubbed_components: vec!["file system (in-memory VFS behind cfg(a2lfile_verif))", "OS randomness feeding std RandomState (getrandom interposer)"],
-        expected_probes: vec!["hash-order-cross-check", "api-built-tagged-items-with-equal-uid-and-line"],
+        expected_probes: vec!["hash-order-cross-check", "api-built-tagged-items-with-equal-uid-and-line", "built-in-a2ml-specification", "position-restricted-siblings-out-of-order", "file-with-more-than-one-a2ml-block", "torn-save-then-load"],
         plans: vec![
             ScenarioPlan { scenario: Box::new(c01::C01Cycles { faults: false }), quick_runs: 12_000, thorough_runs: 1_000_000 },
             ScenarioPlan { scenario: Box::new(c01::C01Cycles { faults: true }), quick_runs: 6_000, thorough_runs: 400_000 },
@@ -77,7 +77,7 @@ fn c15_spec() -> CheckSpec {
         ],
         real_components: vec!["a2lfile: sort_new_items, merge_modules, writer ordering (Writer::sort_function), load/write"],
         stubbed_components: vec!["file system (in-memory VFS, used by the write steps only)"],
-        expected_probes: vec![">=16-consecutive-sort_new_items"],
+        expected_probes: vec![">=16-consecutive-sort_new_items", "file-with-several-modules", "new-elements-placed-in-a-later-module"],
         plans: vec![ScenarioPlan { scenario: Box::new(c15::C15Histories), quick_runs: 4_000, thorough_runs: 120_000 }],
     }
 }
@@ -94,7 +94,7 @@ fn c16_spec() -> CheckSpec {
         ],
         real_components: vec!["a2lfile: tokenizer (include resolution), loader (make_include_filename, load, decoding), a2ml tokenizer (A2ML-level include), parser, writer, merge_includes", "std Read::read_to_end"],
         stubbed_components: vec!["file system (in-memory VFS with directories, CWD, fault plan, call trace)", "OS randomness feeding std RandomState"],
-        expected_probes: vec!["include-resolved-at-depth>=2", "EINTR-retried", "empty-include-file", "decoy-at-cwd-relative-location"],
+        expected_probes: vec!["include-resolved-at-depth>=2", "include-resolved-at-depth-3", "EINTR-retried", "empty-include-file", "comment-only-include-file", "decoy-at-cwd-relative-location", "include-inside-if_data", "a2ml-include-inside-an-included-file", "include-file-in-utf16"],
         plans: vec![
             ScenarioPlan { scenario: Box::new(c16::C16Includes), quick_runs: 6_000, thorough_runs: 200_000 },
             ScenarioPlan { scenario: Box::new(c16::C16Cycles), quick_runs: 64, thorough_runs: 512 },
